@@ -391,19 +391,20 @@ Theorem C14_reach_followups_commute : forall (sigT : Type) (recover : Z -> Z -> 
 Proof. exact reach_followups_commute. Qed.
 Print Assumptions C14_reach_followups_commute.
 
-(* the by-destination redelegation index is exact on every reachable state and stays so; the other four indexes are
-   kept exact by the migration wherever they are exact (their exactness on the real states is evaluated on every
-   pre-state of the correspondence run: idxallb) *)
+(* the four by-validator indexes 0x71 0x33 0x35 0x36 are exact on every reachable state and after every accepted
+   migration from it; the unbonding-id index 0x38 stays sound wherever it is (its ids are answers of the environment;
+   its soundness on the real states is evaluated on every pre-state of the correspondence run: idxallb) and every
+   moved entry is found by its id under a key of the target *)
 Theorem C14_reach_indexes : forall (sigT : Type) (recover : Z -> Z -> sigT -> option Z)
     (env : Type) (ask : env -> query -> vans) (env_next : env -> query -> env),
   sane_env env ask -> forall e ops from to sg s', let s := reached sigT recover env ask env_next e ops in
-  migrate_tx sigT recover s from to sg = Ok s' ->
-  idx36_ok s' /\ (idx71_ok s -> idx71_ok s') /\ (idx33_ok s -> idx33_ok s') /\ (idx35_ok s -> idx35_ok s') /\
-  (idx38_ok s -> idx38_ok s') /\
-  (forall kv e, In kv (ubds (stake s)) -> fst (fst kv) = from -> In e (u_entries (snd kv)) ->
-     exists k, sget Z.eqb (ue_id e) (unbidx (stake s')) = Some k /\ In (ue_id e, k) (unb_writes from to s)) /\
-  (forall kv e, In kv (reds (stake s)) -> fst (fst kv) = from -> In e (r_entries (snd kv)) ->
-     exists k, sget Z.eqb (re_id e) (unbidx (stake s')) = Some k /\ In (re_id e, k) (unb_writes from to s)).
+  (idx71_ok s /\ idx33_ok s /\ idx35_ok s /\ idx36_ok s) /\
+  (migrate_tx sigT recover s from to sg = Ok s' ->
+   (idx71_ok s' /\ idx33_ok s' /\ idx35_ok s' /\ idx36_ok s') /\ (idx38_ok s -> idx38_ok s') /\
+   (forall kv e, In kv (ubds (stake s)) -> fst (fst kv) = from -> In e (u_entries (snd kv)) ->
+      exists k, sget Z.eqb (ue_id e) (unbidx (stake s')) = Some k /\ In (ue_id e, k) (unb_writes from to s)) /\
+   (forall kv e, In kv (reds (stake s)) -> fst (fst kv) = from -> In e (r_entries (snd kv)) ->
+      exists k, sget Z.eqb (re_id e) (unbidx (stake s')) = Some k /\ In (re_id e, k) (unb_writes from to s))).
 Proof. exact reach_indexes. Qed.
 Print Assumptions C14_reach_indexes.
 
@@ -436,8 +437,8 @@ Print Assumptions C14_reach_gov_scan_exact.
    account 2; the migration of 2 is refused by the governance rule, that of 1 is accepted, moves the records, rewrites
    queue and id index, the matured funds go to 5, and the follow-ups 1 could have made are accepted for 5 *)
 Theorem C14_reach_nonvacuous :
-  sane_env Z h_ask /\
-  let s := reached unit sig_any Z h_ask h_next 0 ex_hist in
+  sane_env Z h_ask /\ ex_reach = reached unit sig_any Z h_ask h_next 0 ex_hist /\
+  let s := ex_reach in
   del_of s 1 13 = Some (D 1 13 700) /\ del_of s 1 14 = Some (D 1 14 200) /\
   ubd_of s 1 13 = Some (U 1 13 [UE 3 1814420 100 100 102 0]) /\
   red_of s 1 13 14 = Some (R 1 13 14 [RE 3 1814420 200 200 104 0]) /\
@@ -454,5 +455,5 @@ Theorem C14_reach_nonvacuous :
                   fruns Z h_ask h_next 7 s' (map (ren_fop 1 5) ex_follow) = Ok (10, t') /\
                   del_of t 1 15 = Some (D 1 15 40) /\ del_of t' 5 15 = Some (D 5 15 40) /\
                   bal_of t 1 0 = 98995 /\ bal_of t' 5 0 = 98995).
-Proof. split; [exact h_ask_sane | exact reach_example]. Qed.
+Proof. split; [exact h_ask_sane|]. split; [reflexivity | exact reach_example]. Qed.
 Print Assumptions C14_reach_nonvacuous.
